@@ -6,6 +6,7 @@ import (
 	"math"
 	"math/big"
 	"reflect"
+	"sort"
 	"strings"
 	"testing"
 	"testing/iotest"
@@ -24,7 +25,10 @@ type C17Case struct {
 	T      drive.TypeDesc `json:"t"`
 	Val    model.Value    `json:"val"`
 	Binary bool           `json:"binary"`
-	Via    int            `json:"via"` // 0 Unmarshal, 1 UnmarshalString (text), 2 Decoder.DecodeTo, 3 UnmarshalFrom, 4 NewTextDecoder, 5 System.Unmarshal, 6 System.UnmarshalString (text)
+	// Preload > 0: a slice target starts out holding Preload zero elements
+	// (len = cap = Preload) instead of nil; what is stored must not depend on it
+	Preload int `json:"preload,omitempty"`
+	Via     int `json:"via"` // 0 Unmarshal, 1 UnmarshalString (text), 2 Decoder.DecodeTo, 3 UnmarshalFrom, 4 NewTextDecoder, 5 System.Unmarshal, 6 System.UnmarshalString (text)
 }
 
 // verdict is what the reference conversion table allows for one cell.
@@ -306,7 +310,50 @@ func renderValue(v model.Value, binary bool, c gen.Chooser) []byte {
 	return printDoc([]model.Value{v}, c).Doc
 }
 
+// c17BadTargets are arguments Unmarshal cannot fill: the call must come back
+// with an error, never a panic (and never nil for the first three).
+var c17BadTargets = map[string]func() (target interface{}, mustErr bool){
+	"bad:nil":         func() (interface{}, bool) { return nil, true },
+	"bad:non-pointer": func() (interface{}, bool) { return 5, true },
+	"bad:nil-pointer": func() (interface{}, bool) { return (*int)(nil), true },
+	"bad:nil-struct-pointer": func() (interface{}, bool) {
+		return (*struct{ A int })(nil), true
+	},
+	"bad:chan":          func() (interface{}, bool) { return new(chan int), false },
+	"bad:func":          func() (interface{}, bool) { return new(func()), false },
+	"bad:complex":       func() (interface{}, bool) { return new(complex128), false },
+	"bad:map-int-key":   func() (interface{}, bool) { return new(map[int]string), false },
+	"bad:unexported":    func() (interface{}, bool) { return new(struct{ a, b int }), false },
+	"bad:slice-of-chan": func() (interface{}, bool) { return new([]chan int), false },
+	"bad:non-pointer-struct": func() (interface{}, bool) {
+		return struct{ A int }{}, true
+	},
+}
+
+func runC17Bad(c C17Case) string {
+	st := Stat("C17")
+	data := renderValue(c.Val, c.Binary, nil)
+	st.Eval(true, model.DigestBytes(fmt.Sprintf("c17 %s %v %d", c.T.K, c.Binary, c.Via), []byte(c.Val.String())), "cell.bad-target", "target."+c.T.K, "ion."+c.Val.Kind.String())
+	st.Sample(func() string { return fmt.Sprintf("%s into %s", c.Val.String(), c.T.K) })
+	return drive.Guard2(func() string {
+		target, mustErr := c17BadTargets[c.T.K]()
+		var err error
+		if c.Via == 2 {
+			err = ion.NewDecoder(ion.NewReaderBytes(data)).DecodeTo(target)
+		} else {
+			err = ion.Unmarshal(data, target)
+		}
+		if err == nil && mustErr {
+			return fmt.Sprintf("no error for a target that cannot be filled\nIon value: %s\ntarget: %s", c.Val.String(), c.T.K)
+		}
+		return ""
+	})
+}
+
 func runC17(c C17Case) string {
+	if strings.HasPrefix(c.T.K, "bad:") {
+		return runC17Bad(c)
+	}
 	st := Stat("C17")
 	typ := drive.GoType(c.T)
 	want := conv(c.T, c.Val)
@@ -321,7 +368,7 @@ func runC17(c C17Case) string {
 		cell = "either"
 	}
 	diag := cell == "must-store" && !c.Val.IsNull
-	st.Eval(!diag || gen.IsBoundaryInt(orZero(c.Val.Int)) || c.Val.IsNull, model.DigestBytes(fmt.Sprintf("c17 %s %v %d", typ.String(), c.Binary, c.Via), []byte(c.Val.String())),
+	st.Eval(!diag || gen.IsBoundaryInt(orZero(c.Val.Int)) || c.Val.IsNull, model.DigestBytes(fmt.Sprintf("c17 %s %v %d %d", typ.String(), c.Binary, c.Via, c.Preload), []byte(c.Val.String())),
 		"cell."+cell, "target."+strings.SplitN(c.T.K, ":", 2)[0], "ion."+c.Val.Kind.String(), map[bool]string{true: "binary", false: "text"}[c.Binary])
 	st.Sample(func() string { return fmt.Sprintf("%s into %s (%s)", c.Val.String(), typ.String(), cell) })
 	desc := func() string {
@@ -331,6 +378,9 @@ func runC17(c C17Case) string {
 		target := reflect.New(typ)
 		if c.T.K == "ifaceptr" {
 			target.Elem().Set(reflect.New(drive.GoType(*c.T.Elem)))
+		}
+		if c.Preload > 0 && typ.Kind() == reflect.Slice {
+			target.Elem().Set(reflect.MakeSlice(typ, c.Preload, c.Preload))
 		}
 		var err error
 		switch c.Via {
@@ -524,6 +574,9 @@ func genC17(t *rapid.T) C17Case {
 	if isWrapper(c.T) && gen.Chance(t, 70) && !c.Val.IsNull {
 		c.Val.Ann = []model.Sym{model.S(gen.Pick(t, []string{"a", "b", "x y"}))}
 	}
+	if (c.T.K == "slice" || c.T.K == "bytes") && gen.Chance(t, 30) {
+		c.Preload = gen.Range(t, 1, 4)
+	}
 	if c.Binary && (c.Via == 1 || c.Via == 6) {
 		c.Via -= 1
 	}
@@ -675,10 +728,33 @@ func TestC17(t *testing.T) {
 					vals = append(vals, v.WithAnn(model.S("a"), model.S("b")))
 				}
 				for _, vv := range vals {
-					for _, c := range []C17Case{{T: tg, Val: vv, Binary: false, Via: 1}, {T: tg, Val: vv, Binary: true, Via: 0}, {T: tg, Val: vv, Binary: true, Via: 2}} {
+					cells := []C17Case{{T: tg, Val: vv, Binary: false, Via: 1}, {T: tg, Val: vv, Binary: true, Via: 0}, {T: tg, Val: vv, Binary: true, Via: 2}}
+					if tg.K == "slice" || tg.K == "bytes" {
+						for n := 1; n <= 3; n++ {
+							cells = append(cells, C17Case{T: tg, Val: vv, Binary: n%2 == 0, Via: n % 2, Preload: n})
+						}
+					}
+					for _, c := range cells {
 						if !yield(c) {
 							return
 						}
+					}
+				}
+			}
+		}
+	})
+	// arguments that cannot be filled: an error, never a panic
+	Enumerate(t, p, "bad-targets", func(yield func(C17Case) bool) {
+		var kinds []string
+		for k := range c17BadTargets {
+			kinds = append(kinds, k)
+		}
+		sort.Strings(kinds)
+		for _, k := range kinds {
+			for _, v := range c17Exemplars() {
+				for _, c := range []C17Case{{T: drive.TypeDesc{K: k}, Val: v, Binary: false, Via: 0}, {T: drive.TypeDesc{K: k}, Val: v, Binary: true, Via: 2}} {
+					if !yield(c) {
+						return
 					}
 				}
 			}
@@ -690,7 +766,7 @@ func TestC17(t *testing.T) {
 
 func init() {
 	Describe("C17",
-		"cases: (Ion value, target Go type, format, entry point): the exhaustive matrix of ~125 exemplar values (29 integer boundaries up to 2^128, every typed null, float32 / float64 boundaries incl. just above MaxFloat32, NaN, infinities, decimals, timestamps of several precisions, symbols with / without text, strings, lobs of several lengths, lists / sexps / structs of scalars incl. mixed, nested and out-of-range elements) x 75 target types (bool, every integer width, uintptr, float32/64, string, []byte, [4]byte, Timestamp, time.Time, Decimal, big.Int, SymbolToken, interface{}, a non-empty interface, and pointer / pointer-to-pointer / slice / array / map / struct / annotation-wrapper shapes over 7 element types) x {text via UnmarshalString, binary via Unmarshal, binary via Decoder.DecodeTo}; plus random values (entry points also UnmarshalFrom, NewTextDecoder over a one-byte-per-Read source, System.Unmarshal / UnmarshalString) and random integers against the same targets; plus Decoder streams of 0-6 values. Non-trivial: off-diagonal cell, boundary number or typed null. Distinct by digest(value, target, format, entry).",
+		"cases: (Ion value, target Go type, format, entry point): the exhaustive matrix of ~125 exemplar values (29 integer boundaries up to 2^128, every typed null, float32 / float64 boundaries incl. just above MaxFloat32, NaN, infinities, decimals, timestamps of several precisions, symbols with / without text, strings, lobs of several lengths, lists / sexps / structs of scalars incl. mixed, nested and out-of-range elements) x 75 target types (bool, every integer width, uintptr, float32/64, string, []byte, [4]byte, Timestamp, time.Time, Decimal, big.Int, SymbolToken, interface{}, a non-empty interface, and pointer / pointer-to-pointer / slice / array / map / struct / annotation-wrapper shapes over 7 element types) x {text via UnmarshalString, binary via Unmarshal, binary via Decoder.DecodeTo}; plus random values (entry points also UnmarshalFrom, NewTextDecoder over a one-byte-per-Read source, System.Unmarshal / UnmarshalString) and random integers against the same targets; plus 12 arguments that cannot be filled (nil, non-pointer, nil pointer, pointers to chan / func / complex / map with int keys / struct with unexported fields) x every exemplar: an error or at least no panic; plus Decoder streams of 0-6 values. Non-trivial: off-diagonal cell, boundary number or typed null. Distinct by digest(value, target, format, entry).",
 		"oracle: reference conversion table with three verdicts per cell: must-store (the stored Go value, described by the harness's own reflection walk, equals the expected value), must-error (integer outside the target's width or sign, finite float beyond float32, symbol without text into string, any type mismatch: an error and never a stored result), either (a typed null leaving the zero value, surplus list elements or lob bytes dropped for a fixed-size array, float into Decimal, case-insensitive field-name fallback, an annotated struct into a wrapper); never a panic. Decoder: n successful Decode / DecodeTo calls in order, then ErrNoInput on each further call",
 		"stored values are compared under C16's semantic equality (nil vs empty collections, time.Time by instant); struct values for map / interface{} targets have unique field names with known text",
 	)
